@@ -104,6 +104,7 @@ def main(argv=None):
     if args.unit:
         units = {k: v for k, v in units.items() if any(u in k for u in args.unit)}
     cfg = Config(tier, seed)
+    cfg.strict_only = pid in getattr(contracts, 'STRICT_ONLY', ())
     results = run_units(reg, units, cfg, jobs=args.jobs)
 
     # Verdict stability: solver budgets are wall-clock, so on a loaded machine a feasibility query can time out and
@@ -132,6 +133,7 @@ def main(argv=None):
     shaky = sorted(shaky)
     if shaky and not os.environ.get('PYVC_NO_RERUN'):
         calm = Config(tier, seed)
+        calm.strict_only = cfg.strict_only
         calm.branch_timeout_ms *= 3
         calm.quant_branch_timeout_ms *= 3
         calm.prove_timeout_ms *= 3
